@@ -3,10 +3,12 @@ package main
 import (
 	"context"
 	"fmt"
+	"os"
 
 	"github.com/hslam/rpc"
 	"github.com/hslam/socket"
 	vs "verif/shim/vsync"
+	vt "verif/shim/vtime"
 )
 
 // C04 — each received request is executed once and answered once.
@@ -246,7 +248,13 @@ func c04Lost(x *X) {
 	var err error
 	var tr *rpc.Transport
 	warm := x.Choose(3) // successful exchanges on the connection before the loss
-	n.onDial = func(string) { n.conns[len(n.conns)-1].end.p.cutDrop[1] = 1 + warm }
+	parked := false
+	park := via == 1 && warm > 0 && x.Choose(2) == 1 // the connection is parked in the idle queue before the judged call
+	n.onDial = func(string) {
+		if len(n.conns) == 1 && !park { // the first connection only: a replacement connection is not cut
+			n.conns[0].end.p.cutDrop[1] = 1 + warm
+		}
+	}
 	warmup := func(call func(a *[]byte, r *[]byte) error) {
 		for i := 0; i < warm; i++ {
 			a := mkPayload(byte(0x30+i), 0, 12)
@@ -265,8 +273,21 @@ func c04Lost(x *X) {
 		err = conn.Call("Svc.Echo", &args, &reply)
 		conn.Close()
 	} else {
-		tr = &rpc.Transport{Options: so.options(n, 64)}
+		tr = &rpc.Transport{KeepAlive: tKeepAlive, IdleConnTimeout: tIdle, Options: so.options(n, 64)}
 		warmup(func(a *[]byte, r *[]byte) error { return tr.Call("srv", "Svc.Echo", a, r) })
+		if park {
+			// the connection is left unused until the housekeeping has parked it in the idle queue
+			for d := tKeepAlive + tTick; d > 0; d -= tTick {
+				vt.Advance(tTick)
+				vs.Quiesce()
+			}
+			parked = true
+			// (the housekeeping pings the connection when it parks it: the cut is re-aimed at the next response)
+			if k := len(n.conns); k > 0 {
+				p := n.conns[k-1].end.p
+				p.cutDrop[1] = p.nw[1] + 1
+			}
+		}
 		if x.Choose(2) == 0 {
 			err = tr.Call("srv", "Svc.Echo", &args, &reply)
 		} else {
@@ -274,13 +295,20 @@ func c04Lost(x *X) {
 		}
 	}
 	vs.Quiesce()
-	if err == nil {
+	if err == nil && !parked {
 		x.Fail("C04/lost-response-reported-success", "the response was lost with the connection but the call returned nil")
 	}
-	if w.execs[7] != 1 {
+	if parked && err == nil && (w.execs[7] != 1 || !eqBytes(reply, transform(args))) {
+		// (the liveness probe of a parked connection may be the exchange that hits the cut; the call then runs on a fresh connection)
+		x.Fail("C04/success-without-single-execution/after-loss", "the call returned nil, the request was executed %d times", w.execs[7])
+	}
+	if w.execs[7] > 1 || (!parked && w.execs[7] != 1) {
 		x.Fail(fmt.Sprintf("C04/executions=%d/after-loss", w.execs[7]), "the request was executed %d times although its call failed once (no retry is allowed)", w.execs[7])
 	}
-	x.Outcome("via=%d warm=%d err=%s execs=%d dials=%d", via, warm, errStr(err), w.execs[7], n.dials["srv"])
+	x.Outcome("via=%d warm=%d parked=%v err=%s execs=%d dials=%d", via, warm, parked, errStr(err), w.execs[7], n.dials["srv"])
+	if parked && os.Getenv("VERIF_DEBUG_C04") != "" {
+		x.Fail(fmt.Sprintf("DEBUG/warm=%d err=%s execs=%d dials=%d", warm, errStr(err), w.execs[7], n.dials["srv"]), "debug")
+	}
 	if tr != nil {
 		tr.Close()
 	}
